@@ -607,7 +607,7 @@ func main() {
 		}
 		// model case: what the client downloaded, as parsed content
 		modelable := len(rec.Errors) == 0 && d.Addr != "range-implicit" &&
-			(rec.Result.Outcome == "eos" || rec.Result.Outcome == "dtsrtc")
+			(rec.Result.Outcome == "eos" || rec.Result.Outcome == "dtsrtc" || rec.Result.Outcome == "noleading")
 		if modelable && !*noModel {
 			dl := rec.DL
 			if rec.Result.Outcome != "eos" {
